@@ -23,7 +23,8 @@ def mixed_units(rnd, n):
     b = termgen.random_chain_units(rnd, n // 4 + 1)
     c = termgen.random_agg_units(rnd, n // 4 + 1, maxrows=40)
     d = c05.random_units(rnd, n // 6 + 1)
-    us = a + b + c + d
+    e = termgen.random_temporal_units(rnd, n // 5 + 1)
+    us = a + b + c + d + e
     rnd.shuffle(us)
     us = us[:n]
     for i, u in enumerate(us):
